@@ -1181,6 +1181,7 @@ func newChecker(c *fw.Ctx, table string, mine func(int64) bool) *checker {
 }
 
 func run(c *fw.Ctx) {
+	c.ConcPart() // schedule companion (checks/c10/conc): interpreters on two goroutines, every schedule with <= 1 / <= 2 preemptions
 	// a booted node keeps ~640 MB of goleveldb write buffers alive (5 databases x 128 MB memdb); with the default
 	// GOGC=100 each of the 16 workers would float up to twice that.  The check itself allocates only short-lived garbage.
 	debug.SetGCPercent(12)
